@@ -1320,6 +1320,105 @@ fn cross_pool(rng: &mut Rng) -> Vec<Value> {
     pool
 }
 
+/// Implementation-side oracle over std types whose own Serialize/Deserialize impls decide what
+/// reaches the serializer (some consult `is_human_readable`, some are newtype / struct / enum /
+/// tuple / sequence shapes with hand-written visitors): converting to a template value and reading
+/// back into the same type returns the original, through both deserializer entry points, and the
+/// types that serialise as their text form print as that text.
+fn foreign_types_oracle(meta: &mut Meta) {
+    use std::net::*;
+    use std::collections::*;
+    fn rt<T: Serialize + DeserializeOwned + PartialEq + Debug>(meta: &mut Meta, tname: &str, v: T, prints: Option<String>) {
+        meta.oracle_checks += 1;
+        let shown = format!("{v:?}").chars().take(300).collect::<String>();
+        let out = guarded(|| {
+            let val = Value::try_from_serializable(&v)?;
+            let owned = T::deserialize(val.clone()).map_err(|e| tera::Error::message(format!("owned: {e}")))?;
+            let byref = T::deserialize(&val).map_err(|e| tera::Error::message(format!("by ref: {e}")))?;
+            let mut c = Context::new();
+            c.insert("v", &v);
+            let text = Tera::default().render_str("{{ v }}", &c, false)?;
+            Ok((owned == v, byref == v, text))
+        });
+        match &out {
+            Outcome::Ok((true, true, text)) if prints.as_ref().map(|p| p == text).unwrap_or(true) => {}
+            other => meta.oracle_fail("a std type does not survive Rust value -> template value -> same Rust type (or does not print as its text form)", None,
+                json!({"type": tname, "value": shown, "expected_print": prints, "got": format!("{other:?}").chars().take(400).collect::<String>()})),
+        }
+    }
+    let v4 = [Ipv4Addr::new(10, 0, 0, 1), Ipv4Addr::UNSPECIFIED, Ipv4Addr::BROADCAST];
+    let v6 = [Ipv6Addr::LOCALHOST, Ipv6Addr::UNSPECIFIED, Ipv6Addr::new(0x2001, 0xdb8, 0, 0, 0, 0xff00, 0x42, 0x8329)];
+    for a in v4 {
+        rt(meta, "Ipv4Addr", a, Some(a.to_string()));
+        rt(meta, "IpAddr", IpAddr::V4(a), Some(a.to_string()));
+        rt(meta, "SocketAddrV4", SocketAddrV4::new(a, 5432), Some(SocketAddrV4::new(a, 5432).to_string()));
+        rt(meta, "SocketAddr", SocketAddr::new(IpAddr::V4(a), 0), Some(SocketAddr::new(IpAddr::V4(a), 0).to_string()));
+        rt(meta, "Vec<IpAddr>", vec![IpAddr::V4(a), IpAddr::V6(v6[0])], None);
+        rt(meta, "BTreeMap<String, Ipv4Addr>", BTreeMap::from([("gw".to_string(), a)]), None);
+        rt(meta, "Option<IpAddr>", Some(IpAddr::V4(a)), Some(a.to_string()));
+    }
+    for a in v6 {
+        rt(meta, "Ipv6Addr", a, Some(a.to_string()));
+        rt(meta, "IpAddr", IpAddr::V6(a), Some(a.to_string()));
+        rt(meta, "SocketAddrV6", SocketAddrV6::new(a, 443, 0, 0), Some(SocketAddrV6::new(a, 443, 0, 0).to_string()));
+        rt(meta, "(IpAddr, u16)", (IpAddr::V6(a), 65535u16), None);
+    }
+    #[derive(Serialize, Deserialize, PartialEq, Debug, Clone)]
+    struct Host { name: String, port: u16, addr: IpAddr, gateway: Ipv4Addr, peers: Vec<SocketAddr> }
+    rt(meta, "struct Host", Host { name: "db-1".into(), port: 5432, addr: IpAddr::V6(v6[0]), gateway: v4[0], peers: vec![SocketAddr::new(IpAddr::V4(v4[0]), 5432)] }, None);
+    // data-model corners with hand-written impls in serde
+    rt(meta, "Duration", std::time::Duration::new(u64::MAX, 999_999_999), None);
+    rt(meta, "Duration", std::time::Duration::ZERO, None);
+    rt(meta, "Range<i64>", i64::MIN..i64::MAX, None);
+    rt(meta, "RangeInclusive<u8>", 0u8..=255u8, None);
+    rt(meta, "Bound<i32>", std::ops::Bound::Included(-1i32), None);
+    rt(meta, "Bound<i32>", std::ops::Bound::<i32>::Unbounded, None);
+    rt(meta, "Result<u8, String>", Ok::<u8, String>(7), None);
+    rt(meta, "Result<u8, String>", Err::<u8, String>("bad".into()), None);
+    rt(meta, "Wrapping<i128>", std::num::Wrapping(i128::MIN), Some(i128::MIN.to_string()));
+    rt(meta, "Reverse<u64>", std::cmp::Reverse(u64::MAX), Some(u64::MAX.to_string()));
+    rt(meta, "NonZeroU128", std::num::NonZeroU128::new(u128::MAX).unwrap(), Some(u128::MAX.to_string()));
+    rt(meta, "NonZeroI8", std::num::NonZeroI8::new(-128).unwrap(), Some("-128".into()));
+    rt(meta, "[u8; 4]", [0u8, 127, 128, 255], None);
+    rt(meta, "[i64; 0]", [0i64; 0], None);
+    rt(meta, "Box<str>", Box::<str>::from("bøx"), Some("bøx".into()));
+    rt(meta, "PathBuf", std::path::PathBuf::from("a/b é.txt"), Some("a/b é.txt".into()));
+    rt(meta, "BTreeSet<i16>", BTreeSet::from([i16::MIN, 0, i16::MAX]), None);
+    rt(meta, "VecDeque<String>", VecDeque::from(["x".to_string(), String::new()]), None);
+    rt(meta, "LinkedList<bool>", LinkedList::from([true, false]), None);
+    rt(meta, "BinaryHeap as Vec", BinaryHeap::from([3u8, 1, 2]).into_sorted_vec(), None);
+    rt(meta, "HashSet<char>", HashSet::from(['é', '日']), None);
+    rt(meta, "PhantomData", std::marker::PhantomData::<u8>, None);
+    rt(meta, "Cell<u32>", std::cell::Cell::new(u32::MAX), Some(u32::MAX.to_string()));
+    rt(meta, "f64 -0.0 bits", (-0.0f64).to_bits(), None);
+    // floats keep their bit pattern (sign of zero included); untagged enums pick the variant the data has
+    for f in [-0.0f64, 0.0, 3.0, -3.0, 1e300, f64::MIN_POSITIVE, 9007199254740993.0, -9223372036854775808.0] {
+        meta.oracle_checks += 1;
+        let out = guarded(|| {
+            let val = Value::try_from_serializable(&f)?;
+            let a = f64::deserialize(val.clone()).map_err(|e| tera::Error::message(e.to_string()))?;
+            let b = f64::deserialize(&val).map_err(|e| tera::Error::message(e.to_string()))?;
+            Ok((a.to_bits(), b.to_bits()))
+        });
+        if !matches!(&out, Outcome::Ok((a, b)) if *a == f.to_bits() && *b == f.to_bits()) {
+            meta.oracle_fail("an f64 does not come back with the same bit pattern", None, json!({"value": format!("{f:?}"), "bits": f.to_bits(), "got": format!("{out:?}")}));
+        }
+    }
+    #[derive(Serialize, Deserialize, PartialEq, Debug, Clone)]
+    #[serde(untagged)]
+    enum Amount { Units(i64), Ratio(f64), Label(String) }
+    #[derive(Serialize, Deserialize, PartialEq, Debug, Clone)]
+    #[serde(untagged)]
+    enum Wide { Small(u8), Big(u64), Neg(i64), Text(String) }
+    for a in [Amount::Ratio(3.0), Amount::Ratio(-0.5), Amount::Units(3), Amount::Units(i64::MIN), Amount::Label("3".into()), Amount::Ratio(1e19)] {
+        rt(meta, "untagged enum Amount{Units(i64),Ratio(f64),Label(String)}", a, None);
+    }
+    // (128-bit variants are left out: serde's buffering for untagged enums has no 128-bit integers, whatever the deserializer)
+    for w in [Wide::Small(255), Wide::Big(256), Wide::Big(u64::MAX), Wide::Neg(-1), Wide::Neg(i64::MIN), Wide::Text("255".into())] {
+        rt(meta, "untagged enum Wide{Small(u8),Big(u64),Neg(i64),Text(String)}", w, None);
+    }
+}
+
 fn main() {
     let args = parse_args();
     if std::env::var("C19_LOUD").is_err() {
@@ -1406,6 +1505,7 @@ fn main() {
     for what in INVALID_UTF8.lock().unwrap().iter() {
         meta.oracle_fail("a string held by a Value / returned by deserialize is not valid UTF-8", None, json!({"string": what}));
     }
+    foreign_types_oracle(&mut meta);
     meta.extra.insert("oracle_only_evaluations".into(), json!(oracle_only));
     meta.extra.insert("oracle_only_nontrivial".into(), json!(oracle_only));
     meta.extra.insert("cross_pool_size".into(), json!(pool.len()));
